@@ -786,6 +786,15 @@ pub fn should_collapse_function_body(ctx: &Context, function_body: &FunctionBody
             .any(trivia_util::trivia_is_comment)
         || trivia_util::contains_comments(function_body.block());
 
+    // A comment behind the return type would swallow the `end` which follows it on the same line
+    #[cfg(feature = "luau")]
+    let require_multiline_function = require_multiline_function
+        || function_body
+            .return_type()
+            .map_or(false, |return_type| {
+                return_type.has_trailing_comments(CommentSearch::All)
+            });
+
     !require_multiline_function
         && (trivia_util::is_block_empty(function_body.block())
             || (trivia_util::is_block_simple(function_body.block())
